@@ -14,7 +14,7 @@ TRUSTED_BASE = [
     "prepare_url / prepare_body / body serializers are used through their own contracts (URL composition is audited natively)",
 ]
 ASSUMPTIONS = ["arrays up to 3 elements and objects up to 2 properties with string elements (labelled bounded); element strings contain none of the style's delimiters"]
-NOT_DECIDED = ["WSGI / ASGI transports beyond the shared serialize_case", "nested booleans/None inside lists (jsonify_python_specific_types)"]
+NOT_DECIDED = ["WSGI / ASGI transports beyond the shared serialize_case", "Swagger 2.0 prepare_multipart (formData / collectionFormat parts)", "the multipart encoding itself (requests / urllib3, E4)"]
 EXPLANATION = ("Each style encoder's output is proved equal to the wire form that the OpenAPI / RFC 6570 serialization table prescribes for (style, explode, type) - so the standard "
                "decoder recovers the value; serialize_case passes the query values through unchanged except {} -> '' and sets Content-Type to the case's media type.")
 
